@@ -5,7 +5,7 @@ use tevec::prelude::{MapValidVec, QuantileMethod, UninitVec, Vec1, VecAggValidEx
 #[allow(unused_imports)]
 use tevec::prelude::UninitVec as _UV;
 use tvh::chk::{reset_log, take_log, ChkOut, ChkView};
-use tvh::engine::{catch, fail, main_for, sub, CheckResult, Obs, Property, Tier};
+use tvh::engine::{canary, catch, fail, main_for, sub, CheckResult, Fail, Obs, Property, Tier};
 use tvh::gen::{idx, len_strategy, mp_of, raw_pair, series_of, InT, Series};
 use tvh::model::{Stat, Stat2};
 use tvh::sut;
@@ -260,6 +260,76 @@ fn check_rank_partition(c: &KCase, obs: &mut Obs) -> CheckResult {
     Ok(())
 }
 
+/// Caller-supplied output buffers of the REAL containers in the shapes a caller can hand in: a
+/// VecDeque whose ring storage is physically wrapped, and a strided / reversed ndarray view inside a
+/// padded allocation. Every slot must be written (with the value the Vec reference has) and nothing
+/// outside the buffer may be touched. Runs first in a child process (engine `canary`), because a
+/// breach here is a stray raw write.
+fn check_real_out_buffers(c: &KCase, obs: &mut Obs) -> CheckResult {
+    use std::collections::VecDeque;
+    use std::mem::MaybeUninit;
+    use tevec::export::ndarray::{s, Array1};
+    const STATS: [Stat; 10] = [Stat::Sum, Stat::Mean, Stat::Std, Stat::Kurt, Stat::Min, Stat::ArgMax, Stat::Rank { pct: true, rev: false }, Stat::MinMaxNorm, Stat::ZScore, Stat::RegSlope];
+    const SENT: f64 = -123456.75;
+    let stat = STATS[c.k % STATS.len()];
+    let name = format!("ts_v{}", stat.name());
+    let w = c.w.max(1);
+    let mp = c.mp.map(|m| m.min(w));
+    let data: Vec<f64> = c.x.iter().map(|v| v.unwrap_or(f64::NAN)).collect();
+    let len = data.len();
+    let reference: Vec<f64> = sut::via_vec(len, false, |buf| sut::roll_valid::<Vec<f64>, f64, Vec<f64>, f64>(&data, stat, w, mp, buf)).map_err(|e| Fail { sig: format!("{}:out-path", name), detail: e })?;
+    let fb = |v: &f64| if v.is_nan() { u64::MAX } else { v.to_bits() };
+    let want: Vec<u64> = reference.iter().map(fb).collect();
+    // (a) wrapped VecDeque buffer
+    let mut out: VecDeque<MaybeUninit<f64>> = VecDeque::with_capacity(len.max(1));
+    let cap = out.capacity();
+    let r = if len == 0 { 0 } else { (1 + c.flags as usize % 5) % cap.max(1) };
+    for _ in 0..r {
+        out.push_back(MaybeUninit::new(SENT));
+    }
+    for _ in 0..r {
+        out.pop_front();
+    }
+    for _ in 0..len {
+        out.push_back(MaybeUninit::new(SENT));
+    }
+    let wrapped = !out.as_slices().1.is_empty();
+    let ret = sut::roll_valid::<Vec<f64>, f64, VecDeque<f64>, f64>(&data, stat, w, mp, Some(&mut out));
+    if ret.is_some() {
+        return fail(format!("{}:out-path", name), "a value was returned although a buffer was supplied");
+    }
+    let got: Vec<f64> = out.iter().map(|v| unsafe { v.assume_init() }).collect();
+    if got.iter().map(fb).collect::<Vec<_>>() != want {
+        let unwritten = got.iter().zip(reference.iter()).filter(|(g, r)| **g == SENT && **r != SENT).count();
+        return fail(format!("{}:vecdeque-out-buffer", name), format!("{} (w {}, mp {:?}) into a {} VecDeque out buffer: {:?} ({} slots still hold the sentinel), the Vec reference is {:?}", name, w, mp, if wrapped { "wrapped" } else { "contiguous" }, got, unwritten, reference));
+    }
+    // (b) strided / reversed ndarray view inside a padded allocation
+    let step = [1isize, 2, 3, -1, -2][(c.flags as usize / 8) % 5];
+    let st = step.unsigned_abs();
+    let plen = if len == 0 { 0 } else { (len - 1) * st + 1 };
+    let pad = len + 2;
+    let mut parent: Array1<MaybeUninit<f64>> = Array1::from_elem(plen + 2 * pad, MaybeUninit::new(SENT));
+    {
+        let view = parent.slice_mut(s![pad..pad + plen;step]);
+        let ret = sut::roll_valid::<Vec<f64>, f64, Array1<f64>, f64>(&data, stat, w, mp, Some(view));
+        if ret.is_some() {
+            return fail(format!("{}:out-path", name), "a value was returned although a buffer was supplied");
+        }
+    }
+    let got: Vec<f64> = parent.slice(s![pad..pad + plen;step]).iter().map(|v| unsafe { v.assume_init() }).collect();
+    if got.iter().map(fb).collect::<Vec<_>>() != want {
+        return fail(format!("{}:ndarray-out-view", name), format!("{} (w {}, mp {:?}) into an ndarray out view with step {}: {:?}, the Vec reference is {:?}", name, w, mp, step, got, reference));
+    }
+    let touched = parent.iter().filter(|v| unsafe { v.assume_init() } != SENT).count();
+    if touched != reference.iter().filter(|v| **v != SENT).count() {
+        return fail(format!("{}:ndarray-out-view:outside-write", name), format!("{} wrote outside its out view (step {})", name, step));
+    }
+    obs.set_nontrivial(len >= 3 && (wrapped || step != 1));
+    obs.class_if(wrapped, "out_deque_wrapped");
+    obs.class_if(step != 1, "out_view_strided");
+    Ok(())
+}
+
 fn main() {
     let mut p = Property::new(
         "C10",
@@ -272,6 +342,7 @@ fn main() {
     p.add(sub("single_series_kernels", 6000, 200000, k_case, check_single));
     p.add(sub("two_series_kernels", 6000, 200000, k_case, check_double));
     p.add(sub("rank_partition_quantile", 10000, 300000, k_case, check_rank_partition));
+    p.add(canary(sub("real_out_buffers", 3000, 100000, k_case, check_real_out_buffers)));
     p.add(sub(
         "real_containers",
         10000,
